@@ -368,6 +368,11 @@ def mirror(ck, fb):
         p = cmp_parts(expr)
         s = estr(expr)
         ok = bool(p) and p[0] == "==" and "to_vertex()" in estr(p[1]) and "edge(" in estr(p[1]) and estr(p[2]).strip("()").startswith("*") and "&&" not in s and "||" not in s
+        if not ok and bool(p) and p[0] == "!=" and "from_vertex()" in estr(p[1]) and "edge(" in estr(p[1]) and estr(p[2]).strip("()").startswith("*") and "&&" not in s and "||" not in s:
+            ok = True  # the equivalent test on the other end point
+        if not ok and bool(p) and "&&" not in s and "||" not in s and "vertex()" in s and "edge(" in s:
+            ck.cannot_judge("C08.closed %s: add_face(vertices) decides the orientation by another single end-point comparison (%s) - not judged" % (f.loc(x), s[:80]))
+            continue
         (ck.ok if ok else lambda r, w, t: ck.violate(r, w, t, "C08.closed:swap"))("C08.closed", f.loc(x), "add_face(vertices): sub-index = (edge(e).to_vertex() == current vertex) and nothing else (%s)" % s[:80])
     ae = [(b, i, x) for b, i, x in f.nodes(("call",)) if x.get("pn", "") == TK + "::add_edge" and b in f.reach()]
     texts = [estr(f.resolve(x["a"])).replace(" ", "") for b, i, x in ae]
